@@ -98,7 +98,7 @@ def usable_table(jobs: Optional[int] = None) -> Dict[Tuple[str, str], str]:
     repo.activate()
     pairs = [(m.id, t) for m in repo.corpus() for t in repo.TARGETS]
     table: Dict[Tuple[str, str], str] = {}
-    nj = jobs or int(os.environ.get("VERIF_JOBS", "0") or 0) or (os.cpu_count() or 4)
+    nj = jobs or int(os.environ.get("VERIF_JOBS", "0") or 0) or min(12, os.cpu_count() or 4)
     ctx = multiprocessing.get_context("fork")
     with concurrent.futures.ProcessPoolExecutor(max_workers=nj, mp_context=ctx) as pool:
         for mid, target, status, extra in pool.map(_status_of, pairs, chunksize=16):
